@@ -69,6 +69,10 @@ pub struct SimSpec {
 	/// task is then suspended inside its Stop for that long (0 everywhere except in C10's `arrival-during-kill`)
 	#[serde(default)]
 	pub kill_lag_ms: u8,
+	/// injected kill failures carry ESRCH ("no such process": what killpg reports for a process group that
+	/// has no members left, although the job's own child may live on) instead of a generic I/O error
+	#[serde(default)]
+	pub kill_esrch: bool,
 }
 
 impl SimSpec {
@@ -395,6 +399,9 @@ impl TokioChildWrapper for SimChild {
 		let alive = World::alive_now(&g.children[id]);
 		if fail {
 			World::rec(&mut g, Ev::StartKill { child: id, ok: false, alive });
+			if g.spec.kill_esrch {
+				return Err(io::Error::from_raw_os_error(libc::ESRCH));
+			}
 			return Err(io::Error::other(format!("injected kill failure #{call}")));
 		}
 		if g.children[id].reaped.is_some() {
